@@ -162,6 +162,8 @@ type world struct {
 	useEtcd bool
 	confVer uint64
 	lastPanic string
+	prevServed, curServed, curStored map[uint64]rec
+	R *res.Result
 	notes   map[string]bool
 }
 
@@ -290,21 +292,90 @@ func viewCoq(m *metapb.Store, lw, rw float64, rcf int, w *world) string {
 		coqfmt.Bool(m.GetPhysicallyDestroyed()), labsCoq(ls), v, iw(lw), iw(rw), coqfmt.Z(int64(rcf)))
 }
 
+// rec is the lifecycle/identity projection of one store record, kept beside the Coq text for the
+// driver's own (Go-side) statement of the four known defects
+type rec struct {
+	Labels string
+	Rest   string // address, state, physically-destroyed, version
+	LW, RW float64
+}
+
+func mkRec(s *core.StoreInfo) rec {
+	m := s.GetMeta()
+	return rec{Labels: fmt.Sprint(m.GetLabels()), Rest: fmt.Sprint(m.GetAddress(), m.GetState(), m.GetPhysicallyDestroyed(), m.GetVersion()),
+		LW: s.GetLeaderWeight(), RW: s.GetRegionWeight()}
+}
+
 func (w *world) snapshot(r string) string {
 	stores := w.rc.GetStores()
 	sort.Slice(stores, func(i, j int) bool { return stores[i].GetID() < stores[j].GetID() })
 	sv := make([]string, len(stores))
+	w.prevServed, w.curServed, w.curStored = w.curServed, map[uint64]rec{}, map[uint64]rec{}
 	for i, s := range stores {
 		sv[i] = "(" + coqfmt.ZU(s.GetID()) + ", " + viewCoq(s.GetMeta(), s.GetLeaderWeight(), s.GetRegionWeight(), s.GetRegionCount(), w) + ")"
+		w.curServed[s.GetID()] = mkRec(s)
 	}
 	var sd []string
 	// the real load path of a new leader
 	if err := w.st.LoadStores(func(s *core.StoreInfo) {
 		sd = append(sd, "("+coqfmt.ZU(s.GetID())+", "+viewCoq(s.GetMeta(), s.GetLeaderWeight(), s.GetRegionWeight(), 0, w)+")")
+		w.curStored[s.GetID()] = mkRec(s)
 	}); err != nil {
 		panic(err)
 	}
 	return "(Obs " + r + "\n     " + coqfmt.List(sv) + "\n     " + coqfmt.List(sd) + ")"
+}
+
+// goSide states the four defects already known for C14 directly on the implementation's observations
+// (independently of the Coq monitor, which also finds them) so that the report carries the concrete values.
+func (w *world) goSide(R *res.Result, c *caseRec, o op, r string) {
+	if R == nil {
+		return
+	}
+	replay := map[string]interface{}{"In": c.In}
+	tgt := o.ID
+	if o.K == "put" {
+		tgt = o.P.ID
+	}
+	isErr := r != "ROk" && r != "RNone" && r != "RPanic"
+	if r == "RPanic" {
+		R.Violate("C14:panic-heartbeat-after-tombstone-cleanup", "StoreHeartbeat("+fmt.Sprint(o.ID)+") panicked in the handler: "+w.lastPanic+
+			" (rollingStoresStats still holds a store whose record RemoveTombStoneRecords deleted)", replay)
+	}
+	if isErr && (o.K == "put" || o.K == "labels") {
+		if a, ok := w.prevServed[tgt]; ok {
+			if b, ok2 := w.curServed[tgt]; ok2 && a.Rest == b.Rest && a.Labels != b.Labels {
+				R.Violate("C14:failed-put-mutated-served-labels", fmt.Sprintf("%s on store %d returned %s, yet the served labels went from %s to %s (storage: %s)",
+					o.K, tgt, r, a.Labels, b.Labels, w.curStored[tgt].Labels), replay)
+			}
+		}
+	}
+	if !isErr {
+		for id, b := range w.curServed {
+			a, had := w.prevServed[id]
+			d, st := w.curStored[id]
+			if had && a == b || !st {
+				continue
+			}
+			if b.Rest == d.Rest && b.Labels == d.Labels && (b.LW != d.LW || b.RW != d.RW) {
+				sig, why := "C14:stored-weight-differs-from-served", ""
+				for _, p := range c.In.Ops {
+					if p.K == "weight" && p.ID == id && p.F.On {
+						sig, why = "C14:stale-weight-after-failed-set-weight", "an earlier SetStoreWeight failed half-way"
+						break
+					}
+				}
+				if why == "" {
+					for _, p := range c.In.Ops {
+						if p.K == "clean" {
+							sig, why = "C14:stale-weight-after-tombstone-cleanup", "the weight keys survived RemoveTombStoneRecords"
+						}
+					}
+				}
+				R.Violate(sig, fmt.Sprintf("after a successful %s store %d is served with weights %v/%v but LoadStores gives %v/%v (%s)", o.K, id, b.LW, b.RW, d.LW, d.RW, why), replay)
+			}
+		}
+	}
 }
 
 func (w *world) errRes(err error) string {
@@ -587,6 +658,7 @@ func (w *world) runCase(in caseIn, r *rng.R, nops int, malformed bool, useEtcd b
 		ob := w.exec(&o)
 		c.In.Ops = append(c.In.Ops, o)
 		c.Obs = append(c.Obs, ob)
+		w.goSide(w.R, &c, o, strings.Fields(strings.TrimPrefix(ob, "(Obs "))[0])
 		if strings.HasPrefix(ob, "(Obs RPanic") {
 			dead = true
 		}
@@ -633,6 +705,7 @@ func main() {
 	defer w.x.Close()
 
 	R := res.New("C14", *seed, *tier)
+	w.R = R
 	R.Rule = "histories of put-store (new / same id / same address, direct and through the gRPC handler), label updates, remove (with/without " +
 		"physically-destroyed), up, bury (hook), check-stores (hook), set-weight, tombstone cleanup, store heartbeats and region placements on the REAL " +
 		"RaftCluster of a real bootstrapped server, with a storage fault (not applied / applied-but-error) at a chosen write of a chosen store; " +
